@@ -512,7 +512,7 @@ func probesFor(r *RNG, all []Op, fresh string) [][]byte {
 			}
 		case "AllowURLSchemes", "AllowURLSchemeWithCustomPolicy":
 			for _, s := range o.Names {
-				for _, u := range []string{s + "://good.example/p/q?x=1", s + "://example.com/other", s + ":opaque", upperASCII(s) + "://good.example/p/"} {
+				for _, u := range []string{s + "://good.example/p/q?x=1", s + "://example.com/other", s + ":opaque", upperASCII(s) + "://good.example/p/", s + "&#58;//good.example/p/"} {
 					add(`<a href="` + u + `">l</a>`)
 					add(`<img src="` + u + `">`)
 					add(`<blockquote cite="` + u + `">q</blockquote>`)
@@ -521,6 +521,12 @@ func probesFor(r *RNG, all []Op, fresh string) [][]byte {
 		case "SkipElementsContent", "AllowElementsContent":
 			for _, n := range o.Names {
 				add("a<" + n + ">inner<b>x</b></" + n + ">z")
+			}
+		case "AllowDataURIImages":
+			for _, u := range urlSamples {
+				if strings.Contains(strings.ToLower(u), "data") {
+					add(`<img src="` + u + `" alt="i">`)
+				}
 			}
 		}
 	}
